@@ -5,13 +5,13 @@ EXTENDS JSONEnum, Json, SequencesExt
 
 CONSTANTS PatBound,   \* types with > 8 members: bound on members away from the populated / empty end
           MidBound,   \* the same for types with exactly 8 members (99 = full product of all states)
-          DocBound    \* bound on edited members per document (documents with > 7 members)
+          DocBound    \* bound on edited members per document (documents with > 5 members)
 
 BoundOf(t) == IF Len(Members(t)) > 8 THEN PatBound ELSE IF Len(Members(t)) = 8 THEN MidBound ELSE 99
 
 PatCases(t) == {[type |-> t, pat |-> p] : p \in {q \in Patterns(t, BoundOf(t)) : Feasible(t, q)}}
 DocCases(t) == {[type |-> t, edit |-> e] :
-                  e \in DocEdits(t, IF Cardinality(DocKeys(t)) > 7 THEN DocBound ELSE 7)}
+                  e \in DocEdits(t, IF Cardinality(DocKeys(t)) > 5 THEN DocBound ELSE 7)}
 
 Number(s) == [i \in 1..Len(s) |-> s[i] @@ ("id" :> i)]
 
